@@ -173,6 +173,11 @@ func (g *gen) expr() string {
 		return "not " + g.term() + " in " + g.term()
 	case 14:
 		return g.ref()
+	case 15:
+		// built-in called with an explicit return value: eq(a, 2, x), count(xs, n), plus(1, 2, s)
+		return fmt.Sprintf(g.pick([]string{"eq(%s, %s, %s)", "neq(%s, %s, %s)", "plus(%s, %s, %s)", "gt(%s, %s, %s)", "startswith(%s, %s, %s)",
+			"concat(%s, %s, %s)", "array.concat(%s, %s, %s)", "object.get(%s, \"k\", %s, %s)", "equal(%s, %s, %s)", "assign(%s, %s)%.0s"}),
+			g.scalar(), g.scalar(), g.ident())
 	default:
 		return g.term()
 	}
@@ -417,6 +422,7 @@ func StressModules(scale int) []Module {
 		"package p\n\nprint := 1\n\ncount(x) := 2\n\ninput := 3\n",
 		"package p\n\nx if {\n\tprint(\"a\")\n\ttrace(\"b\")\n\thttp.send({})\n\topa.runtime()\n\trand.intn(\"a\", 2)\n\ttime.now_ns()\n}\n",
 		"package p\n\nx := any([true])\n\ny := all([true])\n\nz := re_match(\"a\", \"a\")\n\nw := cast_array([])\n",
+		"package p\n\nevery_thing if every x in input.xs { x }\n\nsome_thing if some x in input.xs\n\nnot_thing if not input.x\n\nwith_thing if input.x with input as {}\n",
 		"package system.authz\n\ndefault allow := false\n\nallow if input.identity == \"admin\"\n",
 		"package main\n\nmain := 1\n\ndeny contains msg if {\n\tmsg := \"x\"\n}\n\nviolation contains {\"msg\": msg} if msg := \"y\"\n",
 	)
